@@ -4,6 +4,7 @@ from __future__ import annotations
 import ast
 import operator
 
+from .. import efg as _efg
 from ..pyfacts import AnalysisError, src
 from ..genfacts import GenFacts, GEN, ASM
 from ..consteval import Interp
@@ -268,7 +269,7 @@ def run(repo, chk):
                 ok = False
             chk.expect(ok, 'C09.M2', 'bool_expr_branch[compare]::polarity',
                        f'false code must follow the relation check, true code must follow the inverse at the target: {names}', GEN)
-        gen_path = any(e.kind == 'cond' and e.text == 'expr.type == DataType.BOOL' and e.truth for e in ev)
+        gen_path = any(_efg.cond_is(e, 'expr.type == DataType.BOOL') is True for e in ev)
         if gen_path:
             names = [e.short() for e in seq if e.kind in ('emit', 'splice')]
             try:
@@ -296,7 +297,7 @@ def run(repo, chk):
     chk.expect(texts == want, 'C09.M2', 'bool_expr_branch::short-circuit structure',
                f'not swaps the continuations; and/or evaluate the right side only when needed: {texts}', GEN)
     for p, ev in gf.inlined('bool_expr_branch'):
-        conds = {e.text: e.truth for e in ev if e.kind == 'cond'}
+        conds = _efg.Conds(ev)
         if conds.get('type(expr) is ast.BoolValue'):
             names = [e.short() for e in items_of(ev)]
             want = ['splice:if_true'] if conds.get('expr.data') else ['splice:if_false']
@@ -329,7 +330,7 @@ def run(repo, chk):
     for p, ev in gf.inlined('truth_is_defeat'):
         if p.outcome == 'raise':
             continue
-        conds = {e.text: e.truth for e in ev if e.kind == 'cond'}
+        conds = _efg.Conds(ev)
         em = [e for e in ev if e.kind == 'emit' and e.ctor != 'asm.Metadata']
         if any('compare_map.get(type(expr))' in t and v for t, v in conds.items()):
             ok, got = operand_protocol(ev, 'defeat')
@@ -358,7 +359,7 @@ def run(repo, chk):
         for p, ev in gf.inlined(fname):
             if p.outcome == 'raise':
                 continue
-            conds = {}
+            conds = _efg.Conds()
             for e in ev:
                 if e.kind == 'cond':
                     conds[e.text] = e.truth
@@ -435,7 +436,7 @@ def run(repo, chk):
     for p, ev in gf.inlined('un_op_reg_arg'):
         if p.outcome == 'raise':
             continue
-        conds = {e.text: e.truth for e in ev if e.kind == 'cond'}
+        conds = _efg.Conds(ev)
         em = [e.short() for e in ev if e.kind == 'emit']
         if conds.get('op_type is ast.Neg'):
             chk.expect(em == ['asm.Sub(r_out, asm.IntLiteral(0), arg_in)'], 'C09.M3', 'un_op_reg_arg[Neg]', f'{em}', GEN)
@@ -449,7 +450,7 @@ def run(repo, chk):
         arm = F.arm_of(ev, len(ev) - 1)
         if not arm.startswith('IntToBool') or p.outcome == 'raise':
             continue
-        conds = {e.text: e.truth for e in ev if e.kind == 'cond'}
+        conds = _efg.Conds(ev)
         em = [e.short() for e in items_of(ev)]
         if conds.get('isinstance(value, asm.IntLiteral)'):
             rets = [src(e.value) for e in ev if e.kind == 'return']
